@@ -273,6 +273,22 @@ func leafStarts(w *World) []int {
 }
 
 func (t *trajSpace) Ops(w *World) []Op {
+	ops := t.allOps(w)
+	if !t.spec.Has("crash") && !t.spec.Has("twin") {
+		return ops
+	}
+	// crash / cache-transparency spaces: lookups cannot change what a commit writes; skip them
+	out := ops[:0]
+	for _, o := range ops {
+		if o.K == "get" || o.K == "mget" || o.K == "mhas" {
+			continue
+		}
+		out = append(out, o)
+	}
+	return out
+}
+
+func (t *trajSpace) allOps(w *World) []Op {
 	c := w.Conts[0]
 	if err := w.EnsureHandle(c); err != nil {
 		return nil
